@@ -904,3 +904,11 @@ func specDecLeading(d *Decimal, k int) *big.Int {
 	v, _ := new(big.Int).SetString(d.n.String()[:k], 10)
 	return v
 }
+
+// specIntCode: the type nibble of a binary integer, 2 for positive and 3 for negative.
+func specIntCode(v int64) byte {
+	if v < 0 {
+		return 0x30
+	}
+	return 0x20
+}
